@@ -458,17 +458,22 @@ class NameConverter(ast.NodeTransformer):
             # the inlined lookup cannot key those, so make an ordinary call
             # to the function, which binds them like any other call.
             return self.generic_visit(node)
-        tmp = f"__TMP{next(self.count)}_"
+        # (names ending in two underscores are not subject to private name
+        # mangling when the call sits in the body of a nested class)
+        tmp_id = next(self.count)
+
+        def tmp(key):
+            return f"__TMP{tmp_id}_{key}__"
 
         def _make_lookup_call(key, arg):
             # (not the plain name: the method may have a parameter called type)
             name = (
-                "__SUBTLER_TYPE"
+                "__SUBTLER_TYPE__"
                 if self.analysis.lookup_for(key) is subtler_type
-                else "__TYPE"
+                else "__TYPE__"
             )
             value = ast.NamedExpr(
-                target=ast.Name(id=f"{tmp}{key}", ctx=ast.Store()),
+                target=ast.Name(id=tmp(key), ctx=ast.Store()),
                 value=self.visit(arg),
             )
             func = ast.Name(id=name, ctx=ast.Load())
@@ -514,13 +519,13 @@ class NameConverter(ast.NodeTransformer):
             func=method,
             args=selfarg
             + [
-                ast.Name(id=f"{tmp}{i}", ctx=ast.Load())
+                ast.Name(id=tmp(i), ctx=ast.Load())
                 for i, arg in enumerate(node.args)
             ],
             keywords=[
                 ast.keyword(
                     arg=kw.arg,
-                    value=ast.Name(id=f"{tmp}{kw.arg}", ctx=ast.Load()),
+                    value=ast.Name(id=tmp(kw.arg), ctx=ast.Load()),
                 )
                 for kw in node.keywords
             ],
@@ -590,9 +595,9 @@ def closure_wrap(tree, fname, names):
 
 
 def recode(fn, ovld, recurse_sym, call_next_sym, newname):
-    ovld_mangled = f"___OVLD{ovld.id}"
-    map_mangled = f"___MAP{ovld.id}"
-    code_mangled = f"___CODE{next(_current)}"
+    ovld_mangled = f"___OVLD{ovld.id}__"
+    map_mangled = f"___MAP{ovld.id}__"
+    code_mangled = f"___CODE{next(_current)}__"
     try:
         src = inspect.getsource(fn)
     except OSError:  # pragma: no cover
@@ -641,8 +646,8 @@ def recode(fn, ovld, recurse_sym, call_next_sym, newname):
     new_fn.__kwdefaults__ = fn.__kwdefaults__
     new_fn.__annotations__ = fn.__annotations__
     new_fn = rename_function(new_fn, newname)
-    new_fn.__globals__["__SUBTLER_TYPE"] = subtler_type
-    new_fn.__globals__["__TYPE"] = type
+    new_fn.__globals__["__SUBTLER_TYPE__"] = subtler_type
+    new_fn.__globals__["__TYPE__"] = type
     new_fn.__globals__[ovld_mangled] = ovld.dispatch
     new_fn.__globals__[map_mangled] = ovld.map
     new_fn.__globals__[code_mangled] = new_fn.__code__
